@@ -145,6 +145,7 @@ async def run_script(world, sess, obs: SessionObs, hostport):
                 rec["code"] = await peer.login(op[1], op[2] if len(op) > 2 else "pw")
             elif kind == "cmd":
                 rec["reply"] = await peer.cmd(_fmt(op[1], prefix))
+                rec["fs_n"] = world.fsctl.per_label.get(sess["label"], 0)
             elif kind == "raw":
                 await peer.send_raw(op[1].encode("latin-1"))
             elif kind == "reply":
@@ -159,15 +160,21 @@ async def run_script(world, sess, obs: SessionObs, hostport):
                 o = op[2] if len(op) > 2 else {}
                 if o.get("rest") is not None:
                     rec["rest"] = await peer.cmd(f"REST {o['rest']}")
-                rec["res"] = await peer.download(_fmt(op[1], prefix), passive=o.get("p", "EPSV"), connect=o.get("c", "before"))
+                rec["res"] = await peer.download(_fmt(op[1], prefix), passive=o.get("p", "EPSV"), connect=o.get("c", "before"), data_timeout=sess.get("data_timeout"))
+                rec["fs_n"] = world.fsctl.per_label.get(sess["label"], 0)
             elif kind == "put":
                 o = op[3] if len(op) > 3 else {}
                 if o.get("rest") is not None:
                     rec["rest"] = await peer.cmd(f"REST {o['rest']}")
                 data = payload(_fmt(op[1], prefix), op[2])
-                rec["res"] = await peer.upload(_fmt(op[1], prefix), data, passive=o.get("p", "EPSV"), connect=o.get("c", "before"), chunks=o.get("chunks"))
+                rec["res"] = await peer.upload(_fmt(op[1], prefix), data, passive=o.get("p", "EPSV"), connect=o.get("c", "before"), chunks=o.get("chunks"), data_timeout=sess.get("data_timeout"))
+                rec["fs_n"] = world.fsctl.per_label.get(sess["label"], 0)
             elif kind == "sleep":
                 await asyncio.sleep(op[1])
+            elif kind == "fs_off":
+                world.fsctl.enabled = False
+            elif kind == "fs_on":
+                world.fsctl.enabled = True
             elif kind == "quit":
                 rec["reply"] = await peer.cmd("QUIT")
                 try:
@@ -211,11 +218,36 @@ class Obs:
     pass
 
 
+def setup_world(case, *, max_steps=400_000, log_level=None):
+    """World + server built from the 'server' / 'net' / 'fs' parts of a case.  The
+    caller must use it as a context manager (``with world:``) *before* calling
+    ``finish_setup``."""
+    import logging
+
+    world = World(case["seed"], max_steps=max_steps, epoch=case.get("epoch", 1_700_000_000.0), log_level=log_level or logging.WARNING)
+    return world
+
+
+def finish_setup(world, case):
+    apply_net(world.net, case.get("net") or {})
+    fsspec = case.get("fs") or {}
+    if fsspec.get("delay"):
+        world.fsctl.delay = tuple(fsspec["delay"])
+    world.fsctl.short_reads = bool(fsspec.get("short_reads"))
+    sspec = dict(case.get("server") or {})
+    users = build_users(sspec.pop("users", None))
+    kw = {k: sspec[k] for k in SERVER_KEYS if k in sspec}
+    server = world.make_server(users, **kw)
+    tree = fsspec.get("tree")
+    if tree:
+        world.populate({k: (None if v is None else (v.encode("latin-1") if isinstance(v, str) else payload(k, v))) for k, v in tree.items()})
+    return server
+
+
 def run_scenario(case, *, inspect=None, max_steps=400_000):
     """Run the case.  ``inspect(world, obs, phase)`` is called with phase in
     {"started", "settled", "closed"} on the loop (synchronously)."""
-    seed = case["seed"]
-    world = World(seed, max_steps=max_steps, epoch=case.get("epoch", 1_700_000_000.0))
+    world = setup_world(case, max_steps=max_steps)
     obs = Obs()
     obs.world = world
     obs.sessions = {}
@@ -223,18 +255,7 @@ def run_scenario(case, *, inspect=None, max_steps=400_000):
     obs.close_completed = None
     obs.phase = "init"
     with world:
-        apply_net(world.net, case.get("net") or {})
-        fsspec = case.get("fs") or {}
-        if fsspec.get("delay"):
-            world.fsctl.delay = tuple(fsspec["delay"])
-        world.fsctl.short_reads = bool(fsspec.get("short_reads"))
-        sspec = dict(case.get("server") or {})
-        users = build_users(sspec.pop("users", None))
-        kw = {k: sspec[k] for k in SERVER_KEYS if k in sspec}
-        server = world.make_server(users, **kw)
-        tree = fsspec.get("tree")
-        if tree:
-            world.populate({k: (None if v is None else (v.encode("latin-1") if isinstance(v, str) else payload(k, v))) for k, v in tree.items()})
+        server = finish_setup(world, case)
         host = case.get("host", "127.0.0.1")
 
         tasks = {}
@@ -299,6 +320,17 @@ def run_scenario(case, *, inspect=None, max_steps=400_000):
                 world.fsctl.fail_op_at[(at[1], at[2])] = f.get("errno", errno.EIO)
             elif at[0] == "fsall":
                 world.fsctl.fail_all_ops[at[1]] = f.get("errno", errno.EIO)
+                world.fsctl.only_label = f.get("session")
+            elif at[0] == "fslabel":
+                world.fsctl.fail_label_at[(f["session"], at[1])] = f.get("errno", errno.EIO)
+
+        def note_fs_fault(label, op, n):
+            so = obs.sessions.get(label)
+            if so is not None and so.ops:
+                so.ops[-1].setdefault("fs_faults", []).append((op, n))
+            obs.faults_fired.append((["fs", n], "fs:" + op, label, round(world.loop.time(), 9), world.net.seq, world.loop.steps, True))
+
+        world.fsctl.on_fault.append(note_fs_fault)
 
         async def main():
             await server.start(host, case.get("port", 2121))
